@@ -260,6 +260,9 @@ def run(repo, rep):
     rule_slice_window(repo, rep)
     rep.clause("C10-j", "explicit (fused PAD) padding: per-stripe pad_bottom is the receptive field of the stripe's last OFM row, also when the OFM is taller than the IFM (even kernels)")
     rule_explicit_pad_bottom(repo, rep)
+    rep.clause("C10-k", "needed_total_padding is the reference's total SAME padding for every extent, stride and filter size (function interpreted on a grid)")
+    rep.clause("C10-l", "axis-named locals of the stripe generator (k_height_dilation ..) take values of their own axis")
+    rule_round7(repo, rep)
     rule_rolling_buffer_addressing(repo, rep)
     rule_tensor_effect_order(repo, rep)
     rule_tile_base_offset_side(repo, rep)
@@ -613,3 +616,54 @@ def rule_tile_base_offset_side(repo, rep):
 
     rep.run_borrowed(_c02, {"C02-l": "C10-i"}, repo, only_sites=("modify_tile_addresses_for_padding",))
     rep.floor("C10-i", 2)
+
+
+def rule_round7(repo, rep):
+    """(k) needed_total_padding(input, stride, filter) is the total SAME padding of the reference: max((ceil(input / stride) - 1) * stride +
+    filter - input, 0); it sizes the skirt of every operator (how far a stripe's IFM box reaches beyond its kernel origin). Interpreted on
+    a grid. (l) locals of the stripe generator that are named after an axis take their value from that axis (k_height_dilation from the
+    height dilation: attrs["dilation"][-3] / dilation.y, never dilation.x)."""
+    import re as _re
+
+    from ..absint import Interp
+
+    gu = repo.mod("graph_optimiser_util")
+    it = Interp(repo, gu)
+    wrong = None
+    pts = 0
+    for inp in range(1, 21):
+        for stride in (1, 2, 3):
+            for filt in range(1, 9):
+                ps = [p_ for p_ in it.run("needed_total_padding", lambda inp=inp, stride=stride, filt=filt: ([inp, stride, filt], {})) if p_.kind == "return"]
+                if len(ps) != 1 or not isinstance(ps[0].value, int):
+                    raise AnalysisError(f"needed_total_padding({inp}, {stride}, {filt}) not evaluable: {[(p_.kind, p_.value) for p_ in ps][:2]}")
+                want = max((-(-inp // stride) - 1) * stride + filt - inp, 0)
+                pts += 1
+                if ps[0].value != want and wrong is None:
+                    wrong = (inp, stride, filt, ps[0].value, want)
+    rep.check(wrong is None, "C10-k", "ethosu/vela/graph_optimiser_util.py:needed_total_padding", f"total padding = max((ceil(in / stride) - 1) * stride + filter - in, 0) on {pts} points",
+              (f"needed_total_padding({wrong[0]}, {wrong[1]}, {wrong[2]}) = {wrong[3]}, the reference needs {wrong[4]}: the skirt is one stride short when the extent is no multiple of the stride; "
+               "a striped VALID strided operator gets IFM boxes one row short") if wrong else "")
+    hg = repo.mod("high_level_command_stream_generator")
+    f = hg.func("generate_high_level_commands_for_sched_op")
+    site = "ethosu/vela/high_level_command_stream_generator.py:generate_high_level_commands_for_sched_op"
+    n = 0
+    for a in walk_no_nested(f):
+        if not (isinstance(a, ast.Assign) and len(a.targets) == 1 and isinstance(a.targets[0], ast.Name)):
+            continue
+        toks = a.targets[0].id.lower().split("_")
+        ax = "H" if "height" in toks or "h" in toks[1:] else ("W" if "width" in toks or "w" in toks[1:] else None)
+        if ax is None:
+            continue
+        t = str(norm(a.value))
+        leaves = set()
+        if _re.search(r"\.(y|height)\b(?!\w)", t) or _re.search(r"\[-3\]|\[1\]$", t):
+            leaves.add("H")
+        if _re.search(r"\.(x|width)\b(?!\w)", t) or _re.search(r"\[-2\]|\[2\]$", t):
+            leaves.add("W")
+        if len(leaves) == 1:
+            n += 1
+            rep.check(leaves == {ax}, "C10-l", site, f"`{a.targets[0].id}` takes a value of the {ax} axis (`{t[:60]}`)",
+                      f"`{a.targets[0].id} = {t[:70]}` reads the other axis: with dilation_h != dilation_w the dilated kernel height is wrong and the stripes at the bottom edge get the wrong pad_bottom")
+    if n < 2:
+        raise AnalysisError(f"generate_high_level_commands_for_sched_op: {n} axis-named bindings with an axis-typed value")
